@@ -43,7 +43,10 @@ c_qs = contract(M + "quantile_score", prop=P, setup=_setup_qs, configs=[{}, {"mi
 def _qs_sampler(rng):
     n, k = rng.randint(1, 5), rng.randint(1, 3)
     n2 = n if rng.random() < 0.8 else n + 1
-    return dict(y_tau=_np.array([[rng.choice([0.0, 1.0, 2.5, -1.0, rng.uniform(-3, 3)]) for _ in range(k)] for _ in range(n)]),
+    y_tau = _np.array([[rng.choice([0.0, 1.0, 2.5, -1.0, rng.uniform(-3, 3)]) for _ in range(k)] for _ in range(n)])
+    if rng.random() < 0.3:
+        y_tau = _np.array([[rng.randint(-3, 3) for _ in range(k)] for _ in range(n)], dtype=rng.choice([_np.int64, _np.int32]))   # count / quantised estimates
+    return dict(y_tau=y_tau,
                 y_test=_np.array([rng.choice([0.0, 1.0, 2.5, -1.0, rng.uniform(-3, 3)]) for _ in range(n2)]),
                 taus=_np.array([rng.uniform(0.01, 0.99) for _ in range(k)]))
 
